@@ -88,11 +88,19 @@ End View.
 (* ---------------------------------------------------------------- the documented component list
    The tables the specification is evaluated with when it is compared with the implementation's output: the component
    fields in the order of the visual output (activation conditions in front or in their place), and the property
-   fields of each component.  Flat printing and DoV wiring are taken from the given tables (they are the business of
-   C17 / C07).  Tie/C09_tie.v: the regenerated tables are these. *)
+   fields of each component.  The DoV wiring is taken from the given tables (it is the business of C07 / C20).  Tie/C09_tie.v: the regenerated tables are these. *)
 Definition doc_vis_order : list (guard * list field) :=
   [(GIfFront, [FCac; FCacC]); (GAlways, [FA; FD; FI; FBdir; FBdirC; FBind; FBindC; FE; FM; FF; FP; FPC]);
    (GIfNotFront, [FCac; FCacC]); (GAlways, [FCex; FCexC; FO])].
 Definition doc_vis_props : list (str * field * field) :=
   [($"A", FAp, FApC); ($"Bdir", FBdirp, FBdirpC); ($"Bind", FBindp, FBindpC); ($"E", FEp, FEpC); ($"P", FPp, FPpC)].
-Definition spec_vis (T : vis_tables) : vis_tables := mkVisT doc_vis_order doc_vis_props (vt_flat T) (vt_flat_val T) (vt_dov T).
+(* the flat text of a statement (labels of collapsed nested statements, property labels): every field, in the documented
+   order, under its symbol, nested-statement fields in braces *)
+Definition doc_flat : flat_table :=
+  [(FA, $"A", false); (FAp, $"A,p", false); (FApC, $"A,p", true); (FD, $"D", false); (FI, $"I", false);
+   (FBdir, $"Bdir", false); (FBdirC, $"Bdir", true); (FBdirp, $"Bdir,p", false); (FBdirpC, $"Bdir,p", true);
+   (FBind, $"Bind", false); (FBindC, $"Bind", true); (FBindp, $"Bind,p", false); (FBindpC, $"Bind,p", true);
+   (FCac, $"Cac", false); (FCacC, $"Cac", true); (FCex, $"Cex", false); (FCexC, $"Cex", true); (FE, $"E", false);
+   (FEp, $"E,p", false); (FEpC, $"E,p", true); (FM, $"M", false); (FF, $"F", false); (FP, $"P", false);
+   (FPC, $"P", true); (FPp, $"P,p", false); (FPpC, $"P,p", true); (FO, $"O", true)].
+Definition spec_vis (T : vis_tables) : vis_tables := mkVisT doc_vis_order doc_vis_props doc_flat doc_flat (vt_dov T).
